@@ -86,6 +86,15 @@ theorem runOp_atomic {cfg : Cfg} {s s' : St} {o : Op} {ops : List FsOp} (hg : Go
         simp only [hc, Option.some.injEq, Prod.mk.injEq] at ho
         obtain ⟨rfl, rfl⟩ := ho
         exact fromOK (flushCommit_ok hinv hc)
+    | flushFail name =>
+      simp only [runOp] at ho
+      cases hc : flushFail m name with
+      | none => simp [hc] at ho
+      | some r =>
+        obtain ⟨m', ops'⟩ := r
+        simp only [hc, Option.some.injEq, Prod.mk.injEq] at ho
+        obtain ⟨rfl, rfl⟩ := ho
+        exact fromOK (flushFail_ok hinv hc).2.2.2
     | compact name size =>
       simp only [runOp] at ho
       cases hc : compact m d name size with
